@@ -287,7 +287,7 @@ def route_ok(r):
         return labels_ok(v['label']) and 1 <= len(v['label']) <= 77
     if t == 2:
         iplen = 0 if v.get('ip') is None else (4 if v['ip'][0] == 4 else 16)
-        return (v['mac'] < 2 ** 48 and ip_ok(v.get('ip')) and labels_ok(v['label']) and
+        return (v['mac'] < 2 ** 48 and ip_ok(v.get('ip')) and labels_ok(v['label']) and len(v['label']) >= 1 and
                 8 + 10 + 4 + 7 + 1 + iplen + 3 * len(v['label']) <= 255)
     return ip_ok(v.get('ip'))
 
@@ -296,7 +296,7 @@ def t5_corner(r):
     """the corner in which a type 5 route decodes back (C07_evpn_t5): ESI number 0, one family, exactly one label"""
     v = r['value']
     return (r['type'] == 5 and v.get('esi') == 0 and rd_ok(v.get('rd')) and v['eth_tag_id'] < 2 ** 32 and
-            v['prefix'][1] < 256 and ip_ok(v['prefix'][0]) and ip_ok(v['gateway']) and
+            v['prefix'][1] <= (32 if v['prefix'][0][0] == 4 else 128) and ip_ok(v['prefix'][0]) and ip_ok(v['gateway']) and
             v['prefix'][0][0] == v['gateway'][0] and len(v['label']) == 1 and labels_ok(v['label']))
 
 
